@@ -172,6 +172,7 @@ ProcTraded(o, traded, prices, pt) ==
                              o2 == IF size > 0
                                    THEN [o EXCEPT !.frags = Append(@, <<pt, o.price, size>>),
                                                   !.m = Wap(Append(o.frags, <<pt, o.price, size>>))[1],
+                                                  !.avg = Wap(Append(o.frags, <<pt, o.price, size>>))[2],
                                                   !.piq = 0]
                                    ELSE [o EXCEPT !.piq = 0]
                              used == 2 * (o.piq + size)
@@ -191,7 +192,8 @@ ProcSp(o, sp, pt, minbsp) ==
     ELSE
     LET done(x) == <<[x EXCEPT !.bspd = TRUE], TRUE>>
         fill(x, size) == done([x EXCEPT !.frags = Append(@, <<pt, sp, size>>),
-                                       !.m = Wap(Append(x.frags, <<pt, sp, size>>))[1]])
+                                       !.m = Wap(Append(x.frags, <<pt, sp, size>>))[1],
+                                       !.avg = Wap(Append(x.frags, <<pt, sp, size>>))[2]])
     IN IF o.type = "LIMIT"
        THEN IF o.side = "BACK" THEN fill(o, Rem(o))
             ELSE IF (o.price - 100) * Rem(o) >= minbsp * 100
@@ -249,7 +251,7 @@ SelKey(o) == o.selk      \* selection id as the string key of book.r
 
 \* fields of an order record the matching engine owns
 EngineView(o) == [m |-> o.m, frags |-> o.frags, can |-> o.can, lap |-> o.lap, void |-> o.void,
-                  piq |-> o.piq, mver |-> o.mver, bspd |-> o.bspd]
+                  piq |-> o.piq, mver |-> o.mver, bspd |-> o.bspd, avg |-> o.avg]
 ApplyRes(o, r) == [o EXCEPT !.m = r.m, !.frags = r.frags, !.can = r.can, !.lap = r.lap,
                             !.void = r.void, !.piq = r.piq, !.mver = r.mver, !.avg = r.avg]
 
